@@ -185,6 +185,9 @@ def main():
         seen_known.add(o["key"])
         print("KNOWN-FINDING: property=%s %s [%s]" % (prop, known_keys[o["key"]]["what"], o["key"]))
 
+    if args.explain:
+        explain(args.explain, ctx, viol, knownhit)
+
     vdir = os.path.join(args.out, "violations")
     exit_code = 0
     if fatal is not None:
@@ -212,6 +215,34 @@ def main():
     if not args.no_evidence:
         write_evidence(prop, tier, seed, mod, ctx, viol, knownhit, fatal, checker_cmd, fact_hashes, time.time() - t0, configs)
     sys.exit(exit_code)
+
+
+def explain(path, ctx, viol, knownhit):
+    """replay of one recorded violation: is the obligation still violated on the current tree, and what does the
+    analysed code look like (MIR of the function the obligation names)"""
+    try:
+        rec = json.load(open(path))
+    except (OSError, ValueError) as e:
+        print("explain: cannot read %s: %s" % (path, e))
+        return
+    key = rec.get("key")
+    print("explain: recorded obligation %s (%s)" % (key, rec.get("what")))
+    now = [o for o in (ctx.obs if ctx else []) if o["key"] == key]
+    if not now:
+        print("explain: the obligation is not generated on the current tree (its anchor no longer exists or the rule changed)")
+        return
+    for o in now:
+        print("explain: on the current tree: %s [%s] at %s" % ("discharged" if o["ok"] else o["kind"], o["config"], o.get("where")))
+        print(json.dumps(o.get("detail"), indent=1, default=str)[:4000])
+    from lib import mirpp
+    prog = ctx.prog
+    names = [k for k in prog.fns if k and k in (key or "")]
+    for k in sorted(names, key=len, reverse=True)[:1]:
+        f = prog.fns[k]
+        d = dict(f.d)
+        d["blocks"], d["locals"] = f.blocks, f.locals
+        print("explain: MIR of %s (private helpers inlined)" % k)
+        print(mirpp.fn(d, k))
 
 
 def cross_config(ctx, configs):
